@@ -549,6 +549,32 @@ class Verifier:
         return out
 
     # ------------------------------------------------------------------ one contract instance
+    def _snapshot_state(self):
+        """namespaces of the loaded modules of the package under test and of the classes reachable from them (shallow)"""
+        seen, out = set(), []
+
+        def visit_class(c):
+            if id(c) in seen:
+                return
+            seen.add(id(c))
+            out.append((c.ns, dict(c.ns)))
+            for v in list(c.ns.values()):
+                if isinstance(v, IClass):
+                    visit_class(v)
+        for name, m in list(self.interp.modules.items()):
+            if isinstance(m, IModule) and (name == "pycomm3" or name.startswith("pycomm3.")):
+                out.append((m.ns, dict(m.ns)))
+                for v in list(m.ns.values()):
+                    if isinstance(v, IClass):
+                        visit_class(v)
+        return out
+
+    def _restore_state(self, snap):
+        for ns, saved in snap:
+            if ns.keys() != saved.keys() or any(ns[k] is not saved[k] for k in saved):
+                ns.clear()
+                ns.update(saved)
+
     def verify_instance(self, contract, binding, max_paths=None):
         global CURRENT
         CURRENT = self
@@ -559,8 +585,12 @@ class Verifier:
         prefix = []
         t0 = time.time()
         self._path_no = 0
+        snap = self._snapshot_state()
         try:
             while True:
+                # every path (and every instance) starts from the state the package has after import: stand-ins installed
+                # by setup lines, class-level caches filled by an earlier path etc. do not leak
+                self._restore_state(snap)
                 cx = PathCtx(prefix, timeout_ms=self.timeout_ms)
                 set_ctx(cx)
                 self._path_no += 1
@@ -608,6 +638,7 @@ class Verifier:
                     res.out_of_reach = f"more than {max_paths} paths"
                     break
         finally:
+            self._restore_state(snap)
             self.cur, self.cur_result = None, None
             self.path_env = None
             set_ctx(None)
